@@ -30,7 +30,7 @@ RULE = ("generated recordings (2..385 channels with metadata, 1..3 channels as f
 ASSUMPTIONS = ["os-level events issued through Python are all seen by the audit hook; power-loss reordering of unsynced writes is not modelled",
                "'complete' = the file decompresses (with its .ch) to / equals the source bytes",
                "a failure is an exception raised while one chunk is being (de)compressed"]
-REQUIRED = {"compress_faults_injected": 20, "decompress_faults_injected": 20, "remove_events_judged": 4, "stale_bin_runs": 9, "twin_sync_selectors": 50, "twin_selectors": 200,
+REQUIRED = {"compress_faults_injected": 20, "decompress_faults_injected": 20, "remove_events_judged": 4, "stale_bin_runs": 9, "twin_sync_selectors": 50, "twin_selectors": 200, "twin_end_selectors": 40,
             "roundtrips": 4, "entry_paths": 8, "twin_inconsistent_metadata": 3, "explicit_companions": 4, "silent_write_faults_injected": 20, "same_base_name_entries": 12, "noncanonical_entries": 18, "scratch_copies": 5, "odd_names": 3, "partial_uuid_entries": 8, "two_band_scratch_copies": 4}
 CASE_TIMEOUT = 200.0
 
@@ -289,6 +289,39 @@ def run_case(case):
                                   f"{lab} read(sync=True): bin and cbin differ")
                 except Exception as e:
                     res.exception(key + ":exception", e, lab)
+            # the ends of the recording, explicitly: first and last sample through every integer spelling (round 19)
+            for sel in (-1, ns - 1, 0, -ns, np.int64(-1), np.int32(ns - 1), (-1, slice(None)), (-1, 0), (np.int64(-1), slice(0, 3)), slice(-1, None), slice(-2, None)):
+                lab = f"{label} sr[{sel!r}]"
+                # judged on indistinguishability: a selector both readers refuse in the same way is not a difference between them
+                got = []
+                for r_ in (srb, src):
+                    try:
+                        got.append(("value", r_[sel]))
+                    except Exception as e:
+                        got.append(("raises", type(e).__name__))
+                res.count("twin_selectors")
+                (ka, a), (kc, c) = got
+                if ka == "raises" or kc == "raises":
+                    res.check(ka == kc and a == c, "twin:end-samples:exception", f"{lab}: bin {ka} {a if ka == 'raises' else np.shape(a)}, cbin {kc} {c if kc == 'raises' else np.shape(c)}",
+                              counter="twin_end_selectors")
+                else:
+                    res.check(np.shape(a) == np.shape(c) and np.array_equal(np.asarray(a), np.asarray(c)), "twin:end-samples",
+                              lambda: f"{lab}: bin gives shape {np.shape(a)}, cbin gives {np.shape(c)}" + ("" if np.shape(a) != np.shape(c) else " (values differ)"), counter="twin_end_selectors")
+            for isel in (-1, np.int64(-1), np.int64(ns // 2), np.int32(0)):
+                got = []
+                for r_ in (srb, src):
+                    try:
+                        got.append(("value", r_.read(nsel=isel, sync=srb.meta is not None and srb.nsync > 0)))
+                    except Exception as e:
+                        got.append(("raises", type(e).__name__))
+                (ka, a), (kc, c) = got
+                lab = f"{label} read(nsel={isel!r})"
+                if ka == "raises" or kc == "raises":
+                    res.check(ka == kc and a == c, "twin:end-samples:exception", f"{lab}: bin {ka} {a if ka == 'raises' else ''}, cbin {kc} {c if kc == 'raises' else ''}")
+                else:
+                    a, c = (a, c) if isinstance(a, tuple) else ((a,), (c,))
+                    res.check(all(np.shape(x) == np.shape(y) and np.array_equal(x, y) for x, y in zip(a, c)), "twin:end-samples", f"{lab}: bin and cbin differ "
+                              f"(shapes {[np.shape(x) for x in a]} and {[np.shape(x) for x in c]})")
             # around every seam, explicitly
             for s in seams[:40]:
                 for lo, hi in ((s - 2, s + 2), (s - 1, s), (s, s + 1), (max(0, s - 1), min(ns, s + 1))):
